@@ -6,6 +6,7 @@
 // unknown/deleted ids) is C04's lang_harness on the table types; it is instantiated here for the framing table.
 //@tu unwind=12 memunwind=70 loop:ReadEntries=6 loop:nested_pad_harness=30 timeout=600
 //@h _n(\d+)$ : loop:ReadEntries=7
+//@h nested_pad : loop:ReadEntries=3
 #include "rd.h"
 
 // payloads with fixed-length encodings (bool: 1 byte, float: 5, pair<bool,float>: 8): framing, not payload classes, is the subject here
